@@ -532,7 +532,11 @@ pub fn gen_sim_cfg(rng: &mut Rng, ref_steps: u64, workers_hint: usize, faults: b
         5 => Strategy::Pct(3),
         _ => Strategy::RoundRobin(rng.range(1, 20)),
     };
-    c.expected_steps = (ref_steps * 3 / 2).max(50);
+    // PCT change points are drawn in [1, expected_steps]: threaded runs are longer than the reference by a
+    // factor that depends on the scenario, so the horizon is log-uniform in [ref/2, ref * 4 * workers]
+    let hi = (4 * workers_hint.max(1)) as f64;
+    let u = (0.5f64.ln() + rng.f64() * (hi.ln() - 0.5f64.ln())).exp();
+    c.expected_steps = ((ref_steps as f64 * u) as u64).max(50);
     c.claim_policy = *rng.pick(&[ClaimPolicy::InOrder, ClaimPolicy::Halving, ClaimPolicy::Halving, ClaimPolicy::RandomPerm]);
     c.num_threads_default = rng.range(1, 16) as usize;
     if faults {
@@ -984,6 +988,14 @@ impl Family for FactorFamily {
             let mut cfg = gen_sim_cfg(&mut r, ref_steps, workers, !fault_free);
             if spec.algo == Algo::Mpqs && r.chance(0.7) {
                 cfg.claim_policy = ClaimPolicy::InOrder;
+            }
+            if spec.algo == Algo::Mpqs && spec.n.bits() < 64 && tier == Tier::Quick && cfg.claim_policy != ClaimPolicy::InOrder {
+                // remote blocks of a small input sieve very poorly (valid but huge polynomials): a schedule
+                // that starves the worker holding block 0 costs minutes of real time. Quick tier: remote
+                // blocks only under fair schedules; the thorough tier keeps the unfair ones.
+                cfg.strategy = if r.chance(0.5) { Strategy::Random } else { Strategy::RoundRobin(r.range(1, 8)) };
+                cfg.stall_prob = 0.0;
+                cfg.stall_prob_store = 0.0;
             }
             if spec.shape.contains("lanczos_final_step") {
                 cfg.rng_bias = match r.below(4) {
